@@ -1,3 +1,140 @@
-//! Kani contract harnesses for sexpr (included from /repo/parser/src/cfg/sexpr.rs under cfg(kani)).
+//! Kani contract harnesses for parser/src/cfg/sexpr.rs (property C03, C02)
+//! (included from /repo/parser/src/cfg/sexpr.rs under cfg(kani)).
 #![allow(unused_imports, dead_code)]
 use super::*;
+
+fn atom(s: &str) -> SExpr {
+    SExpr::Atom(Spanned::new(s.to_string(), Span::default()))
+}
+fn list(v: Vec<SExpr>) -> SExpr {
+    SExpr::List(Spanned::new(v, Span::default()))
+}
+
+/// allocation-free sink: counts what the Debug impl writes
+struct Sink {
+    open: usize,
+    close: usize,
+    len: usize,
+    first: u8,
+    last: u8,
+    space: usize,
+}
+impl core::fmt::Write for Sink {
+    fn write_str(&mut self, s: &str) -> core::fmt::Result {
+        for b in s.bytes() {
+            if self.len == 0 {
+                self.first = b;
+            }
+            self.last = b;
+            self.len += 1;
+            if b == b'(' {
+                self.open += 1;
+            } else if b == b')' {
+                self.close += 1;
+            } else if b == b' ' {
+                self.space += 1;
+            }
+        }
+        Ok(())
+    }
+}
+fn render(e: &SExpr) -> Sink {
+    use core::fmt::Write;
+    let mut k = Sink { open: 0, close: 0, len: 0, first: 0, last: 0, space: 0 };
+    let r = write!(k, "{:?}", e);
+    assert!(r.is_ok());
+    k
+}
+
+/// Contract of `impl Debug for SExpr` (what every parser diagnostic that quotes an
+/// expression prints): never panics; every list is rendered as `(`..`)`, balanced, one pair
+/// per list in the tree, items separated by single spaces, total length as expected.
+/// Bounded stand-in: the concrete tree shapes listed below (symbolic shapes run CBMC out of
+/// memory through the fmt machinery).
+macro_rules! debug_shape {
+    ($name:ident, $tree:expr, $lists:expr, $spaces:expr, $len:expr) => {
+        #[kani::proof]
+        #[kani::unwind(6)]
+        fn $name() {
+            let e: SExpr = $tree;
+            let k = render(&e);
+            assert!(k.open == $lists && k.close == $lists);
+            assert!(k.first == b'(' && k.last == b')');
+            assert!(k.space == $spaces);
+            assert!(k.len == $len);
+        }
+    };
+}
+debug_shape!(c03_b_debug_shape_empty, list(vec![]), 1, 0, 2);
+debug_shape!(c03_b_debug_shape_a, list(vec![atom("a")]), 1, 0, 3);
+debug_shape!(c03_b_debug_shape_ab, list(vec![atom("a"), atom("b")]), 1, 1, 5);
+debug_shape!(c03_b_debug_shape_abc, list(vec![atom("a"), atom("b"), atom("c")]), 1, 2, 7);
+debug_shape!(c03_b_debug_shape_nested_empty, list(vec![list(vec![])]), 2, 0, 4);
+debug_shape!(c03_b_debug_shape_a_empty, list(vec![atom("a"), list(vec![])]), 2, 1, 6);
+debug_shape!(c03_b_debug_shape_empty_a, list(vec![list(vec![]), atom("a")]), 2, 1, 6);
+debug_shape!(c03_b_debug_shape_nested, list(vec![list(vec![atom("b"), atom("c")]), atom("a")]), 2, 2, 9);
+
+/// must-fail twin: claims lists print without parentheses
+#[kani::proof]
+#[kani::unwind(6)]
+fn c03_b_debug_neg() {
+    let e = list(vec![atom("a")]);
+    let k = render(&e);
+    assert!(k.first != b'(');
+}
+
+fn any_pos() -> Position {
+    Position { absolute: kani::any(), line: kani::any(), line_beginning: kani::any() }
+}
+/// a position that can occur in a file: line count and line start never exceed the offset
+fn pos_valid(p: &Position) -> bool {
+    p.line <= p.absolute && p.line_beginning <= p.absolute
+}
+/// two positions of the same file: offsets and line numbers are ordered alike
+fn same_file_order(p: &Position, q: &Position) -> bool {
+    (p.absolute <= q.absolute || q.line <= p.line) && (q.absolute <= p.absolute || p.line <= q.line)
+        && (p.absolute != q.absolute || p.line == q.line)
+}
+
+/// Position::new / Span::new / Span::cover: the internal assert!s hold for every
+/// combination of positions that lie in one file; cover() is the smallest span containing both
+/// and stays inside them.  Complete over all usize values (loop-free apart from the 1-byte
+/// file-name comparison).
+#[kani::proof]
+#[kani::unwind(4)]
+fn c03_k_span_cover() {
+    let (a, b, c, d) = (any_pos(), any_pos(), any_pos(), any_pos());
+    kani::assume(pos_valid(&a) && pos_valid(&b) && pos_valid(&c) && pos_valid(&d));
+    kani::assume(a.absolute <= b.absolute && c.absolute <= d.absolute);
+    kani::assume(same_file_order(&a, &b) && same_file_order(&c, &d));
+    kani::assume(same_file_order(&a, &c) && same_file_order(&a, &d) && same_file_order(&b, &c) && same_file_order(&b, &d));
+    let pa = Position::new(a.absolute, a.line, a.line_beginning);
+    assert!(pa == a);
+    let name: Rc<str> = Rc::from("f");
+    let content: Rc<str> = Rc::from("");
+    let s1 = Span::new(a, b, name.clone(), content.clone());
+    let s2 = Span::new(c, d, name.clone(), content.clone());
+    let cov = s1.cover(&s2);
+    assert!(cov.start() <= s1.start() && cov.start() <= s2.start());
+    assert!(cov.end() >= s1.end() && cov.end() >= s2.end());
+    assert!(cov.start() == s1.start() || cov.start() == s2.start());
+    assert!(cov.end() == s1.end() || cov.end() == s2.end());
+    assert!(cov.start() <= cov.end());
+    kani::cover!(s2.start() < s1.start() && s1.end() < s2.end(), "one span inside the other");
+}
+
+/// must-fail twin: without the same-file ordering assumption Span::new's assert can fire
+#[kani::proof]
+#[kani::unwind(4)]
+fn c03_k_span_cover_neg() {
+    let (a, b, c, d) = (any_pos(), any_pos(), any_pos(), any_pos());
+    kani::assume(pos_valid(&a) && pos_valid(&b) && pos_valid(&c) && pos_valid(&d));
+    kani::assume(a.absolute <= b.absolute && c.absolute <= d.absolute);
+    kani::assume(a.line <= b.line && c.line <= d.line);
+    let name: Rc<str> = Rc::from("f");
+    let content: Rc<str> = Rc::from("");
+    let s1 = Span::new(a, b, name.clone(), content.clone());
+    let s2 = Span::new(c, d, name.clone(), content.clone());
+    let _ = s1.cover(&s2);
+}
+
